@@ -241,8 +241,9 @@ def enc_commit(c, i=None, text=None):
     p = ",".join(str(x) for x in c["p"]) if c["p"] else "-"
     t = "+".join(enc_str(n) for n in commit_tag_names(c)) or "-"
     sv = saved_version(c)
+    svs = "%d.%d.%d" % tuple(c["sv3"]) if c.get("sv3") else ("%d.%d" % sv if sv else "-")
     m = enc_str(commit_message(c, i, text)) if text is not None else "%d" % (1 if c["m"] else 0)
-    return "%s:%s:%s:%d:%s" % (p, t, m, commit_ts(c, i), "%d.%d" % sv if sv else "-")
+    return "%s:%s:%s:%d:%s" % (p, t, m, commit_ts(c, i), svs)
 
 
 _TAG_BUILD = re.compile(r"build_(\d+)_(.*)_success$")
@@ -362,7 +363,9 @@ def mock_lines(h, text, pins_file=None):
         if tags:
             l += "|tags: " + ", ".join(tags)
         ver = saved_version(c)
-        if ver:
+        if c.get("sv3"):
+            l += "|file:VERSION:%d.%d.%d" % tuple(c["sv3"])     # the build number is kept in the file (saved-number mode)
+        elif ver:
             l += "|file:VERSION:%d.%d" % ver
         if pins_file is not None and c.get("pins"):
             for k, v in sorted(c["pins"].items()):      # one version file per component: DEP_<name>
